@@ -5,6 +5,7 @@ import (
 	"fmt"
 	"os"
 	"path/filepath"
+	"runtime"
 	"testing"
 
 	"github.com/libp2p/go-libp2p/core/crypto"
@@ -104,6 +105,10 @@ type RTScenario struct {
 	// key file): "" nothing | padded (the original key file, re-indented and padded, i.e. a longer
 	// valid file) | junk (longer arbitrary bytes) | short (a few bytes)
 	Over string `json:"over,omitempty"`
+	// ProcsSave / ProcsLoad: number of CPUs the Go runtime may use (GOMAXPROCS) while the file is written /
+	// while it is read (0: unchanged). A key created on a workstation is loaded in a 2-CPU container.
+	ProcsSave int `json:"procs_save,omitempty"`
+	ProcsLoad int `json:"procs_load,omitempty"`
 }
 
 func genPass(t *rapid.T, label string, minLen int) PassSpec {
@@ -180,6 +185,10 @@ func genRT(t *rapid.T) RTScenario {
 	sc.Pass2 = genPass(t, "pass2", 0)
 	sc.Over = rapid.SampledFrom([]string{"", "", "padded", "junk", "short"}).Draw(t, "over")
 	sc.Msg = rapid.SliceOfN(rapid.Byte(), 0, 64).Draw(t, "msg")
+	if rapid.IntRange(0, 2).Draw(t, "procs") == 0 {
+		sc.ProcsSave = rapid.SampledFrom([]int{1, 2, 3, 4, 8, 64}).Draw(t, "procs-save")
+		sc.ProcsLoad = rapid.SampledFrom([]int{1, 2, 3, 4, 8, 64}).Draw(t, "procs-load")
+	}
 	return sc
 }
 
@@ -218,9 +227,18 @@ func runRT(sc RTScenario) world.Verdict {
 	}
 	labels := []string{"source:" + sc.Source, passClass(pass)}
 
+	if sc.ProcsSave > 0 && sc.ProcsLoad > 0 {
+		defer runtime.GOMAXPROCS(runtime.GOMAXPROCS(sc.ProcsSave))
+		if sc.ProcsSave != sc.ProcsLoad {
+			labels = append(labels, "cpu-count-differs-between-save-and-load")
+		}
+	}
 	base, v := makeBase(dirA, sc.Source, sc.KeyLabel, pass, sc.Nonce)
 	if v != nil {
 		return *v
+	}
+	if sc.ProcsSave > 0 && sc.ProcsLoad > 0 {
+		runtime.GOMAXPROCS(sc.ProcsLoad)
 	}
 
 	// 1. the right pass-phrase loads the same, working, matching key
